@@ -40,3 +40,11 @@ func verifTrace(pool *TxPool, op string, txs types.Transactions, preLen int, tim
 	}
 	VerifPoolHook(pool, ev)
 }
+
+// VerifSetDefaultPoolCap sets the initial capacity of new pools (128 in production) and returns the previous value, so
+// that capacity doubling and gc are reachable with a handful of transactions.
+func VerifSetDefaultPoolCap(n int) int {
+	old := defaultPoolCap
+	defaultPoolCap = n
+	return old
+}
